@@ -436,7 +436,78 @@ func c08GenFocused(r *rand.Rand) c08Input {
 // while another span carries the plain field with a matching value.  This is the shape on which
 // the checkedOnlyRoot bookkeeping of extractValueFromSpan decides whether the span loops may stop
 // early; it has to be cumulative over the Fields already looked at.  One sixth of all cases.
+// c08GenShapes: two further shapes straight from the property text.
+//
+//	first-present: Fields [a, b] where ONE span carries both, a with a non-matching and b with a
+//	               matching value — the first present field decides, the rule must not match
+//	               (unless another span helps);
+//	split:         two conditions each satisfied by a DIFFERENT span — matches in trace scope,
+//	               must not match in span scope.
+func c08GenShapes(r *rand.Rand) c08Input {
+	in := c08Input{Seed: int64(1 + r.Intn(1_000_000)), TraceID: fmt.Sprintf("trace-%d", r.Intn(1000)), Root: -1}
+	good := c08PickScalar(r, false)
+	for good.K == "nil" || good.K == "map" || good.K == "arr" {
+		good = c08PickScalar(r, false)
+	}
+	bad := c08PickScalar(r, false)
+	for fmt.Sprint(bad.goSpan()) == fmt.Sprint(good.goSpan()) {
+		bad = c08PickScalar(r, false)
+	}
+	eq := func(field string, fields []string) c08Cond {
+		c := c08Cond{Field: field, Fields: fields, Op: "=", Val: good}
+		if r.Intn(3) == 0 {
+			c.Dt = "string"
+			c.Val = rvVal{K: "s", S: fmt.Sprintf("%v", good.goSpan())}
+		}
+		return c
+	}
+	scope := []string{"", "trace", "span", "span"}[r.Intn(4)]
+	if r.Intn(2) == 0 {
+		// first-present
+		first, second := "a", "b"
+		if r.Intn(4) == 0 {
+			first, second = "root.a", "b"
+		}
+		sp := []c08Field{{K: "a", V: bad}, {K: "b", V: good}}
+		in.Spans = [][]c08Field{sp}
+		if r.Intn(2) == 0 {
+			in.Spans = append(in.Spans, []c08Field{{K: "c", V: good}})
+		}
+		if r.Intn(3) == 0 { // a second span where the first field is absent and the second matches
+			in.Spans = append(in.Spans, []c08Field{{K: "b", V: good}})
+		}
+		if first == "root.a" || r.Intn(2) == 0 {
+			in.Root = 0
+		}
+		in.Rules = []c08Rule{{Name: "first-present", Rate: 1, Drop: r.Intn(2) == 0, Scope: scope, Conds: []c08Cond{eq("", []string{first, second})}}}
+	} else {
+		// split
+		s1 := []c08Field{{K: "a", V: good}, {K: "b", V: bad}}
+		s2 := []c08Field{{K: "a", V: bad}, {K: "b", V: good}}
+		in.Spans = [][]c08Field{s1, s2}
+		if r.Intn(3) == 0 {
+			in.Spans = [][]c08Field{s2, {}, s1}
+		}
+		if r.Intn(4) == 0 { // sometimes one span does satisfy both
+			in.Spans = append(in.Spans, []c08Field{{K: "a", V: good}, {K: "b", V: good}})
+		}
+		in.Root = r.Intn(len(in.Spans)+1) - 1
+		conds := []c08Cond{eq("a", nil), eq("b", nil)}
+		if r.Intn(4) == 0 {
+			conds = append(conds, c08Cond{Field: "c", Op: "not-exists", Val: rvVal{K: "nil"}})
+		}
+		in.Rules = []c08Rule{{Name: "split", Rate: 1, Drop: r.Intn(2) == 0, Scope: scope, Conds: conds}}
+	}
+	if r.Intn(2) == 0 {
+		in.Rules = append(in.Rules, c08Rule{Name: "later", Rate: 5})
+	}
+	return in
+}
+
 func c08GenMixedFields(r *rand.Rand) c08Input {
+	if r.Intn(3) == 0 {
+		return c08GenShapes(r)
+	}
 	in := c08Input{Seed: int64(1 + r.Intn(1_000_000)), TraceID: fmt.Sprintf("trace-%d", r.Intn(1000))}
 	match := c08PickScalar(r, false)
 	for match.K == "nil" || match.K == "map" || match.K == "arr" {
